@@ -181,6 +181,61 @@ def report():
     json.dump({'missed': missed, 'killed_unchanged': fa, 'nov_changed': nov_changed}, open(os.path.join(OUT, 'report.json'), 'w'), indent=1)
 
 
+def recheck(which='missed'):
+    """re-run the static checks (current rules) on the mutants the last report lists as missed / no-verdict"""
+    from aylint.report import Run, AnalysisError
+    from aylint.rules import common
+    import importlib
+    import multiprocessing
+    repo, jobs = enumerate_jobs()
+    d = json.load(open(os.path.join(OUT, 'report.json')))
+    todo = d[which]
+    global _RC
+    _RC = (repo,)
+    with multiprocessing.get_context('fork').Pool(12) as pool:
+        res = pool.map(_recheck_one, [r['job'] for r in todo])
+    still = 0
+    for job, killed, nov in res:
+        if killed:
+            print('now-killed', job[0], job[1], job[3][:50], killed)
+        else:
+            still += 1
+            print('STILL-' + ('NOVERDICT' if nov else 'MISSED'), job[0], job[1], job[3][:60], list(nov.items())[:1])
+    print('%d of %d still not killed' % (still, len(res)))
+
+
+def _recheck_one(job):
+    from aylint.report import Run, AnalysisError
+    from aylint.rules import common
+    import importlib
+    repo = _RC[0]
+    mods = [importlib.import_module('aylint.rules.c%02d' % i) for i in range(1, 21)]
+    qual, op, idx, desc = job
+    rel, text = materialise(repo, qual, op, idx)
+    r2 = repo.with_overrides({rel: text})
+    killed, nov = {}, {}
+    for m in mods:
+        base = Run(m.PROP, 'quick', repo.root, quiet=True)
+        try:
+            common.reset_caches()
+            m.check(repo, base, 'quick')
+        except AnalysisError:
+            pass
+        bk = {v['key'] for v in base.violations}
+        sub = Run(m.PROP, 'quick', repo.root, quiet=True)
+        try:
+            common.reset_caches()
+            m.check(r2, sub, 'quick')
+        except AnalysisError as e:
+            nov[m.PROP] = str(e)[:100]
+        except Exception as e:  # noqa
+            nov[m.PROP] = 'internal %s: %s' % (type(e).__name__, str(e)[:80])
+        new = sorted({v['rule'] for v in sub.violations if v['key'] not in bk})
+        if new:
+            killed[m.PROP] = new
+    return job, killed, nov
+
+
 if __name__ == '__main__':
     if sys.argv[1] == 'enumerate':
         repo, jobs = enumerate_jobs()
@@ -189,3 +244,5 @@ if __name__ == '__main__':
         run_shard(int(sys.argv[2]), int(sys.argv[3]))
     elif sys.argv[1] == 'report':
         report()
+    elif sys.argv[1] == 'recheck':
+        recheck(sys.argv[2] if len(sys.argv) > 2 else 'missed')
